@@ -318,6 +318,42 @@ func c19Main(rc *RunCtx) {
 		rc.Fail("dump_unreadable", "independent decoder cannot read the dump: %v", err)
 		return
 	}
+	if simrt.Choose(4) == 0 && c.n > 0 {
+		// overlapping dumps of the same instance (two API clients, or GET /dump
+		// while the periodic dump runs): each of them is a complete dump
+		nd := 2 + simrt.Choose(3)
+		type dres struct {
+			b    []byte
+			code int
+		}
+		res := make([]dres, nd)
+		dd := make(chan struct{}, nd)
+		for i := 0; i < nd; i++ {
+			i := i
+			simrt.GoNamed(fmt.Sprintf("dumper%d", i), func() {
+				res[i].b, res[i].code = apiDump(A)
+				simrt.Send(0, dd, struct{}{})
+			})
+		}
+		for i := 0; i < nd; i++ {
+			simrt.Recv(0, dd)
+		}
+		simrt.Fault("overlapping_dumps")
+		for i, r := range res {
+			got, err := decodeDump(r.b)
+			if r.code != 200 || err != nil {
+				rc.Fail("dump_failed", "one of %d overlapping GET /dump calls returned %d / %v", nd, r.code, err)
+				return
+			}
+			if len(got) != len(want) {
+				rc.Fail("concurrent_dump_incomplete", "dump %d of %d overlapping GET /dump calls holds %d entries, the cache holds %d live entries (nothing was stored or expired meanwhile)", i, nd, len(got), len(want))
+				return
+			}
+			if !c19Subset(rc, got, want, "one of several overlapping dumps:") {
+				return
+			}
+		}
+	}
 	if c.enospc && len(intact) > 1 {
 		disk.Limit = 1 + simrt.Choose(len(intact)-1)
 	}
@@ -452,6 +488,57 @@ func c19Main(rc *RunCtx) {
 			}
 			apiFlush(C)
 		}
+	}
+	// ---- structurally valid dumps with damaged entries ----
+	if rc.Viol == nil && simrt.Choose(3) == 0 {
+		blk := new(cacheplug.CacheDumpBlock)
+		now := time.Now().Unix()
+		q := mkQuery("crafted.test.", dns.TypeA, 1)
+		okMsg := packOrPanic(genAnswer(rc.R, q, []uint32{300}, true))
+		for i := 0; i < 1+simrt.Choose(6); i++ {
+			msg := append([]byte(nil), okMsg...)
+			switch simrt.Choose(7) {
+			case 0:
+				msg[4], msg[5] = 0, 0 // QDCOUNT 0 (the question bytes become garbage records or trailing data)
+			case 1:
+				msg = msg[:12] // header only
+				msg[4], msg[5], msg[6], msg[7], msg[8], msg[9], msg[10], msg[11] = 0, 0, 0, 0, 0, 0, 0, 0
+			case 2:
+				msg = nil
+			case 3:
+				msg = msg[:12+simrt.Choose(len(msg)-12)]
+			case 4:
+				msg[6], msg[7] = 0xff, 0xff // ANCOUNT 65535
+			case 5:
+				for k := 0; k < 4; k++ {
+					msg[simrt.Choose(len(msg))] ^= byte(1 << simrt.Choose(8))
+				}
+			}
+			key := []byte(fmt.Sprintf("k%d", i))
+			if simrt.Choose(4) == 0 {
+				key = nil
+			}
+			blk.Entries = append(blk.Entries, &cacheplug.CachedEntry{Key: key, Msg: msg,
+				CacheExpirationTime: now + int64(simrt.Choose(7200)) - 600, MsgExpirationTime: now + int64(simrt.Choose(7200)) - 600, MsgStoredTime: now - int64(simrt.Choose(100))})
+		}
+		pb, err := proto.Marshal(blk)
+		if err != nil {
+			panic(err)
+		}
+		var zb bytes.Buffer
+		gw := gzip.NewWriter(&zb)
+		gw.Name = "mosdns_cache_v2"
+		var l [8]byte
+		binary.BigEndian.PutUint64(l[:], uint64(len(pb)))
+		gw.Write(l[:])
+		gw.Write(pb)
+		gw.Close()
+		simrt.Fault("crafted_dump_with_damaged_entries")
+		apiLoad(C, zb.Bytes()) // any status, but no panic, hang or runaway allocation
+		// whatever was admitted must be servable without a panic either
+		cacheLookup(C, q)
+		apiDump(C)
+		apiFlush(C)
 	}
 	C.Close()
 }
